@@ -442,7 +442,10 @@ func (c *compiler) evalAccessIndex(left, index interface{}, node *ast.IndexExpre
 
 func (c *compiler) evalHashLiteral(node *ast.HashLiteral) (interface{}, error) {
 	m := map[string]interface{}{}
-	for ke, ve := range node.Pairs {
+	// in source order: the values may have side effects and a repeated key
+	// must resolve the same way on every run
+	for _, ke := range node.Order {
+		ve := node.Pairs[ke]
 		v, err := c.evalExpression(ve)
 		if err != nil {
 			return nil, err
